@@ -592,6 +592,14 @@ class Evaluator:
 
     def exec_decl(self, d, frame):
         t = self.F.T(d["t"])
+        if d.get("static") and d.get("init") is not None:
+            dep = []
+            from .cg import walk
+            walk(d["init"], lambda n: dep.append(n["k"]) if n.get("k") in ("parm", "this") else None)
+            if dep:
+                raise Inconclusive("HISTORY: function-local static `%s` in %s is initialised from the arguments/object of the FIRST call "
+                                   "and reused by every later call: the result depends on the call history, not only on the inputs"
+                                   % (d["n"], frame["f"]["name"]))
         if is_ref(t):
             x = self.eval(d["init"], frame)
             if not isinstance(x, LV):
